@@ -52,6 +52,11 @@ type c02Scenario struct {
 	// BrokenBody: the request announces multipart/form-data but the body is not
 	// multipart, so the body processor fails (REQBODY_ERROR) in phase 2
 	BrokenBody bool `json:"broken_body,omitempty"`
+	// Pred: before the transaction under test, another one runs to completion on
+	// the same WAF with every token present (so that a ctl:ruleEngine rule fires)
+	// and is closed; the transaction under test gets the recycled object and must
+	// start in the configured mode
+	Pred bool `json:"predecessor,omitempty"`
 }
 
 const c02Redirect = "http://example.com/blocked"
@@ -167,7 +172,7 @@ func c02Gen(t *verifrt.Tape) *c02Scenario {
 			r.Pre = pick(t, []string{"deny", "drop", "redirect", "pass"})
 			r.PreFirst = t.Draw(2) == 0
 		}
-		if !ctlUsed && t.Draw(12) == 0 {
+		if !ctlUsed && t.Draw(7) == 0 {
 			r.CtlMode = pick(t, []string{"On", "DetectionOnly", "Off"})
 			r.Action, r.Status = "pass", 0
 			ctlUsed = true
@@ -242,6 +247,7 @@ func c02Gen(t *verifrt.Tape) *c02Scenario {
 		calls = out
 	}
 	sc.Calls = calls
+	sc.Pred = t.Draw(4) == 0
 	return sc
 }
 
@@ -262,6 +268,7 @@ type c02Model struct {
 	wouldBe      *itRec
 	ran          [6]bool
 	ctlSeen      bool
+	adopted      bool // a rule switched the engine Off in mid-phase: what the rest of that phase did was taken as is
 	limitTouched bool
 	reqBodyErr   bool
 }
@@ -340,6 +347,33 @@ func c02Run(w *verifrt.World, tier Tier) *RunResult {
 		rules[sc.Rules[i].ID] = &sc.Rules[i]
 	}
 	m := &c02Model{mode: sc.Mode, reqHdr: map[string]bool{}, respHdr: map[string]bool{}}
+	if sc.Pred {
+		w.PoolPolicy = verifrt.PoolLIFO
+		res.count("predecessor_runs", 1)
+		if pan := safely(func() {
+			ptx := h.WAF.NewTransactionWithID("c02-pred")
+			ptx.ProcessConnection("10.0.0.8", 4444, "10.0.0.1", 80)
+			ptx.ProcessURI("/p/tA/tB/tC", "POST", "HTTP/1.1")
+			ptx.AddRequestHeader("Content-Type", "application/x-www-form-urlencoded")
+			ptx.AddRequestHeader("X-K1", "yes")
+			ptx.AddRequestHeader("X-K2", "yes")
+			ptx.ProcessRequestHeaders()
+			ptx.WriteRequestBody([]byte("u=bAbB"))
+			ptx.ProcessRequestBody()
+			ptx.AddResponseHeader("Content-Type", "text/plain")
+			ptx.AddResponseHeader("X-R1", "yes")
+			ptx.AddResponseHeader("X-R2", "yes")
+			ptx.ProcessResponseHeaders(200, "HTTP/1.1")
+			ptx.WriteResponseBody([]byte("rArB"))
+			ptx.ProcessResponseBody()
+			ptx.ProcessLogging()
+			ptx.Close()
+		}); pan != "" {
+			res.fail("C02", "panic", "predecessor/"+panicSite(pan), "the predecessor transaction panicked: %s\nconfiguration:\n%s", pan, text)
+			return res
+		}
+		h.ErrCB = nil
+	}
 	tx := h.WAF.NewTransactionWithID("c02")
 	itx, _ := tx.(*corazawaf.Transaction)
 	seen := 0
@@ -498,9 +532,19 @@ func c02Run(w *verifrt.World, tier Tier) *RunResult {
 				if r.CtlMode != "" {
 					m.mode = r.CtlMode
 					m.ctlSeen = true
-					stopPredict = true // rest of this phase after a mode switch: unspecified
-					res.count("unchecked_after_ctl_switch", 1)
-					break
+					res.count("ctl_switch_to_"+r.CtlMode, 1)
+					if r.CtlMode == "Off" {
+						// "with the engine Off no rule is evaluated" is decided at the
+						// next call; whether the rest of THIS phase still runs after a
+						// rule switched the engine off is not stated: take what happened
+						stopPredict = true
+						m.adopted = true
+						res.count("unchecked_after_ctl_switch", 1)
+						break
+					}
+					// On / DetectionOnly: the statement's clauses for that mode apply
+					// to the rules that follow, in this phase too
+					continue
 				}
 				if r.Action != "pass" {
 					switch m.mode {
@@ -566,7 +610,7 @@ func c02Run(w *verifrt.World, tier Tier) *RunResult {
 				return res
 			}
 		case "DetectionOnly", "Off":
-			if modeAtStart == m.mode || !m.ctlSeen {
+			if !m.adopted {
 				if cur != nil && m.interruption == nil {
 					res.fail("C02", "detectiononly-interrupts", fpx(), "after call %d (%s) the transaction is interrupted (%v) although the engine is %s%s", ci, c.Op, cur, m.mode, ctx())
 					return res
@@ -576,8 +620,14 @@ func c02Run(w *verifrt.World, tier Tier) *RunResult {
 					return res
 				}
 			}
-			if m.mode == "DetectionOnly" && itx != nil && !m.ctlSeen {
+			if m.mode == "DetectionOnly" && itx != nil && !m.adopted {
 				wb := itOf(itx.DetectionOnlyInterruption())
+				if limited && m.wouldBe == nil && wb != nil && wb.RuleID == 0 {
+					// a body-limit rejection while a rule had switched the engine to
+					// DetectionOnly is remembered as the would-be interruption (rule 0);
+					// the limit itself is C10's subject
+					m.wouldBe = wb
+				}
 				var r *c02Rule
 				if m.wouldBe != nil {
 					r = rules[m.wouldBe.RuleID]
@@ -614,7 +664,7 @@ func init() {
 		ID: "C02", Level: "exploration", Run: c02Run,
 		Runs:       [2]int{60000, 12000000},
 		MaxSeconds: [2]int{90, 1500},
-		Rule: "one run = 2-8 rules whose firing condition is a token the model can see (REQUEST_URI, REQUEST_HEADERS, REQUEST_BODY, RESPONSE_STATUS, RESPONSE_HEADERS, RESPONSE_BODY, SecAction) with deny|drop|redirect|pass, optional status, phases 1-5, engine On|DetectionOnly|Off, optionally one ctl:ruleEngine switch, optionally small body limits; " +
+		Rule: "one run = 2-8 rules whose firing condition is a token the model can see (REQUEST_URI, REQUEST_HEADERS, REQUEST_BODY, RESPONSE_STATUS, RESPONSE_HEADERS, RESPONSE_BODY, SecAction) with deny|drop|redirect|pass, optional status, phases 1-5, engine On|DetectionOnly|Off, optionally one ctl:ruleEngine switch (after a switch to On or DetectionOnly the machine goes on predicting with the new mode, in the same phase too; only the rest of a phase after a switch to Off is taken as it happened), optionally small body limits, and in a quarter of the runs a predecessor transaction that fires every rule and is closed before the transaction under test takes the recycled object; " +
 			"the canonical call list is delivered as is (1/3) or through an unreliable channel that drops, duplicates and reorders calls (<=24 delivered). After every call the reference phase machine checks: rules newly fired = exactly the visible rules of the phase the marker shows to have run, stopping at the first disruptive one when On; no phase 1-4 twice; nothing of phases 1-4 after an interruption; " +
 			"the recorded and every returned interruption = the first disruptive rule that fired (id, action, status, target); DetectionOnly never returns or records one and remembers the first would-be one; Off evaluates nothing. non-trivial = at least two phases ran; distinct = scenario hash",
 		Assumptions: []string{"drop without an explicit status is compared leniently (the statement gives it no default)",
@@ -622,6 +672,6 @@ func init() {
 		Real:      []string{"transaction phase API, rule engine, disruptive actions, seclang parser"},
 		Stub:      []string{"connector (unreliable call channel)", "clock", "random source", "file system"},
 		Unchecked: []string{"rules following a ctl:ruleEngine switch inside the same phase", "whether a phase runs at all for an anomalous call order (only: at most once)", "calls after a body-limit interruption"},
-		MustHit:   []string{"anomalous_histories", "interruptions", "mode_On", "mode_DetectionOnly", "mode_Off", "unchecked_after_ctl_switch"},
+		MustHit:   []string{"predecessor_runs", "ctl_switch_to_On", "ctl_switch_to_DetectionOnly", "anomalous_histories", "interruptions", "mode_On", "mode_DetectionOnly", "mode_Off", "unchecked_after_ctl_switch"},
 	})
 }
